@@ -212,19 +212,26 @@ def addIndirect (q : Q) (ins outs : List Buf) : Option (Q × Chain × List Ev) :
 def addRefused (q : Q) (k : Nat) : Bool :=
   decide (q.numUsed + 1 > q.n) || decide (k > q.n) || (!q.indirect && decide (q.numUsed + k > q.n))
 
+/-- `add_indirect` if indirect descriptors are enabled and there is more than one buffer, else `add_direct` -/
+def buildChain (q : Q) (ins outs : List Buf) : Option (Q × Chain × List Ev) :=
+  if q.indirect && decide (ins.length + outs.length > 1) then addIndirect q ins outs
+  else addDirect q ins outs
+
+/-- the tail of `add`: ring slot store, (fence,) index store -/
+def publish (q1 : Q) (c : Chain) : Q × List Ev :=
+  let slot := slotOf q1.n q1.availIdx
+  let ai := (q1.availIdx + 1) % U16
+  ({ q1 with availRing := q1.availRing.setIfInBounds slot c.head, availIdx := ai, availIdxMem := ai,
+             out := q1.out ++ [c] },
+   [.st (.ring slot c.head), .st (.idx ai)])
+
 def Q.add (q : Q) (ins outs : List Buf) : Q × Res × List Ev :=
-  let k := ins.length + outs.length
-  if k = 0 then (q, .err .invalidParam, [])
-  else if addRefused q k then (q, .err .queueFull, [])
+  if ins.length + outs.length = 0 then (q, .err .invalidParam, [])
+  else if addRefused q (ins.length + outs.length) then (q, .err .queueFull, [])
   else
-    match (if q.indirect && decide (k > 1) then addIndirect q ins outs else addDirect q ins outs) with
+    match buildChain q ins outs with
     | none => (q, .panic, [])
-    | some (q1, c, evs) =>
-      let slot := slotOf q1.n q1.availIdx
-      let ai := (q1.availIdx + 1) % U16
-      let q2 := { q1 with availRing := q1.availRing.setIfInBounds slot c.head, availIdx := ai,
-                          availIdxMem := ai, out := q1.out ++ [c] }
-      (q2, .token c.head, evs ++ [.st (.ring slot c.head), .st (.idx ai)])
+    | some (q1, c, evs) => ((publish q1 c).1, .token c.head, evs ++ (publish q1 c).2)
 
 /-! ### pop_used -/
 
@@ -287,22 +294,23 @@ def recycle (q : Q) (head : Nat) (ins outs : List Buf) : Option (Q × List Ev) :
     | none => none
     | some (q1, next, evs) => if next.isSome then none else some (q1, evs)   -- "longer than expected"
 
+/-- the used-ring element the driver reads next: `(id, len)` -/
+def Q.usedElem (q : Q) : Nat × Nat := q.usedRing.getD (slotOf q.n q.lastUsedIdx) (0, 0)
+
+/-- the tail of `pop_used`: advance `last_used_idx`, re-arm `used_event` with event-index -/
+def finishPop (q1 : Q) (index : Nat) : Q × List Ev :=
+  let lu := (q1.lastUsedIdx + 1) % U16
+  let q2 := { q1 with lastUsedIdx := lu, out := q1.out.filter fun c => c.head != index }
+  if q2.eventIdx then ({ q2 with usedEvent := lu }, [.st (.usedEvent lu)]) else (q2, [])
+
 def Q.popUsed (q : Q) (token : Nat) (ins outs : List Buf) : Q × Res × List Ev :=
   if !q.canPop then (q, .err .notReady, [])
+  else if q.usedElem.1 % U16 ≠ token then (q, .err .wrongToken, [])
   else
-    let slot := slotOf q.n q.lastUsedIdx
-    let (id, len) := q.usedRing.getD slot (0, 0)
-    let index := id % U16
-    if index ≠ token then (q, .err .wrongToken, [])
-    else
-      match recycle q index ins outs with
-      | none => (q, .panic, [])
-      | some (q1, evs) =>
-        let lu := (q1.lastUsedIdx + 1) % U16
-        let q2 := { q1 with lastUsedIdx := lu, out := q1.out.filter fun c => c.head != index }
-        if q2.eventIdx then
-          ({ q2 with usedEvent := lu }, .len len, evs ++ [.st (.usedEvent lu)])
-        else (q2, .len len, evs)
+    match recycle q (q.usedElem.1 % U16) ins outs with
+    | none => (q, .panic, [])
+    | some (q1, evs) =>
+      ((finishPop q1 (q.usedElem.1 % U16)).1, .len q.usedElem.2, evs ++ (finishPop q1 (q.usedElem.1 % U16)).2)
 
 /-! ### notification suppression -/
 
@@ -314,6 +322,19 @@ def Q.shouldNotify (q : Q) : Bool :=
 def Q.setDevNotify (q : Q) (enable : Bool) : Q × List Ev :=
   let v := if enable then 0 else 1
   if !q.eventIdx then ({ q with availFlags := v }, [.st (.flags v)]) else (q, [])
+
+/-- `add_notify_wait_pop`: add, notify if `should_notify`, wait for the device (which completes the
+    chain with written length `devLen`), pop.  Returns whether `Transport::notify` was called. -/
+def Q.addNotifyWaitPop (q : Q) (ins outs : List Buf) (devLen : Nat) : Q × Res × List Ev × Bool :=
+  match q.add ins outs with
+  | (q1, .token t, evs) =>
+    let notified := q1.shouldNotify
+    -- the wait loop ends when the device has used a buffer
+    let q2 := { q1 with usedRing := q1.usedRing.setIfInBounds (q1.usedIdx % q1.n) (t, devLen),
+                        usedIdx := (q1.usedIdx + 1) % U16 }
+    let (q3, r, evs2) := q2.popUsed t ins outs
+    (q3, r, evs ++ evs2, notified)
+  | (q1, r, evs) => (q1, r, evs, false)
 
 /-! ### the device's writes (any values: a hostile device is a choice of arguments) -/
 
@@ -429,8 +450,29 @@ def Q.cycles : Nat → Q → Option Q
   | 0, q => some q
   | k + 1, q => match q.cycle1 with | some q' => Q.cycles k q' | none => none
 
+/-- digest of one row of the `should_notify` truth table: all 2^16 event-index values -/
+def tableRow (q : Q) (avail : Nat) : UInt64 := Id.run do
+  let mut h : UInt64 := 0
+  for e in [0:65536] do
+    let b := ({ q with availIdx := avail, availEvent := e }).shouldNotify
+    h := h * 6364136223846793005 + (if b then (e.toUInt64 + 1) else 0)
+  return h
+
+/-- digest over all 2^16 values of the device's `used.flags` word -/
+def tableFlags (q : Q) : UInt64 := Id.run do
+  let mut h : UInt64 := 0
+  for f in [0:65536] do
+    let b := ({ q with usedFlags := f }).shouldNotify
+    h := h * 6364136223846793005 + (if b then (f.toUInt64 + 1) else 0)
+  return h
+
 def handle (q : Q) (op : String) (a : Proto.Args) : Q × String :=
   match op with
+  | "table" => (q, s!"digest={(tableRow q (a.nat "a")).toNat}")
+  | "tableflags" => (q, s!"digest={(tableFlags q).toNat}")
+  | "anwp" =>
+    let (q', r, evs, nt) := q.addNotifyWaitPop (parseBufs (a.str "in")) (parseBufs (a.str "out")) (a.nat "len")
+    (q', s!"{outStr q q' r evs} notify={Proto.b2s nt}")
   | "new" => let q' := Q.init (a.nat "n") (a.bool "ind") (a.bool "ev") (a.bool "ap"); (q', s!"ok | - | {q'.privStr}")
   | "add" =>
     let (q', r, evs) := q.add (parseBufs (a.str "in")) (parseBufs (a.str "out")); (q', outStr q q' r evs)
